@@ -300,5 +300,5 @@ def run(ctx):
                 seqs.append([o[2][0] for o in th[0][2] if o[1] == "update"])
         xP = lambda x: is_call(x, name="x") and is_call(x[2][0], name="to_affine") and x[2][0][2][0] == ("arg", 1)
         good = len(seqs) == 2 and sorted(len(s) for s in seqs) == [1, 2] and all(xP(s[0]) for s in seqs) and \
-            all(len(s) == 1 or mentions(s[1], arg(2)) for s in seqs)
+            all(len(s) == 1 or s[1] == ("some", ("arg", 2)) for s in seqs)
         ctx.check(good, "SEQ", g.key, "tagged(x(P)[||root])", "BIP-341: t = tagged_hash(\"TapTweak\", bytes(P) [|| merkle_root])", g.loc)
